@@ -313,6 +313,9 @@ func (E *Engine) applySpec(st *State, in ssa.Instruction, spec *FuncSpec, callee
 	}
 	pre := copyHeap(st.heap)
 	preAlloc := st.alloc
+	if !spec.Pure && !spec.ModAll {
+		E.growAlloc(st)
+	}
 	// effects
 	if spec.ModAll {
 		if E.dry == 0 && E.cur.spec != nil && !E.cur.spec.ModAll {
@@ -331,9 +334,6 @@ func (E *Engine) applySpec(st *State, in ssa.Instruction, spec *FuncSpec, callee
 				}
 			}
 		}
-	}
-	if !spec.Pure {
-		E.growAlloc(st)
 	}
 	// result
 	var res *Val
@@ -596,6 +596,9 @@ func (E *Engine) doReturn(st *State, in *ssa.Return) {
 	}
 	c.paths++
 	c.returns++
+	if c.relRun == 0 && c.returns <= 3 {
+		E.cover(st, fmt.Sprintf("return%d", c.returns), "this return is reachable under the contract's assumptions", E.pos(in))
+	}
 	if c.relRun > 0 {
 		c.retVals = append(c.retVals, &Val{F: rs})
 		c.retStates = append(c.retStates, st)
